@@ -273,6 +273,24 @@ class OrderedObj:
             self.dbusSignature = sig
 
 
+class OrderedSeq(tuple):
+    """A record that is a sequence AND declares its field order (a named tuple given a dbusOrder so that it goes on the
+    wire in another order than it iterates in): dbusOrder decides, as for any object that has it."""
+
+    def __new__(cls, values, sig=None):
+        self = tuple.__new__(cls, list(reversed(values)))
+        helper = OrderedObj(values, sig)
+        self.__dict__.update(helper.__dict__)
+        return self
+
+
+def _ordered(values, sig=None):
+    # every second struct of two or more fields is presented as the sequence flavour
+    if len(values) >= 2 and len(values) % 2 == 0:
+        return OrderedSeq(values, sig)
+    return OrderedObj(values, sig)
+
+
 def _typed(cls, sig, content):
     sub = type(cls.__name__ + '_' + str(len(sig)), (cls,), {'dbusSignature': sig})
     return sub(content)
@@ -422,14 +440,14 @@ def to_py(t, tree, pres, sd=False, marshal_mod=None):
                     return nat
             vals = [to_py(ft, fv, pres, False, m) for ft, fv in zip(fts, tree)]
             if choice == 1:
-                return OrderedObj(vals, sig=t)
+                return _ordered(vals, sig=t)
             return _typed(TTuple, t, vals)
         vals = [to_py(ft, fv, pres, False, m) for ft, fv in zip(fts, tree)]
         if choice == 0:
             return vals
         if choice == 1:
             return tuple(vals)
-        return OrderedObj(vals)
+        return _ordered(vals)
     raise ValueError(t)
 
 
